@@ -429,10 +429,30 @@ Definition enc_body (b : body) : list N :=
   end.
 Definition enc_ev (e : ev) : list N := eseq e :: eid e :: enc_body (ebody e).
 Definition enc_ev_noid (e : ev) : list N := eseq e :: enc_body (ebody e).
+(* what the summary records about the messages it was built from (AutoSummaryAccumulator): the per-actor message
+   counts, most frequent first, ties by actor, first 6 (`- delta_actors:`), and the last 12 messages (`## Recent Delta
+   Highlights`: actor + first non-blank line of the message, which the harness maps back to the content token) *)
+Fixpoint bump (a : N) (h : list (N * N)) : list (N * N) :=
+  match h with
+  | [] => [(a, 1)]
+  | (b, c) :: r => if b =? a then (b, c + 1) :: r else (b, c) :: bump a r
+  end.
+Definition histo (sl : list (N * N)) : list (N * N) := fold_left (fun h m => bump (fst m) h) sl [].
+Definition hist_leb (x y : N * N) : bool := (snd y <? snd x) || ((snd x =? snd y) && (fst x <=? fst y)).
+Fixpoint hist_insert (x : N * N) (l : list (N * N)) : list (N * N) :=
+  match l with [] => [x] | y :: r => if hist_leb x y then x :: l else y :: hist_insert x r end.
+Definition hist_sort (l : list (N * N)) : list (N * N) := fold_right hist_insert [] l.
+Definition k_actors_shown : nat := 6.
+Definition k_highlights : N := 12.
+Definition enc_pairs (l : list (N * N)) : list N := nlen l :: concat (map (fun p => [fst p; snd p]) l).
+Definition delta_actors (sl : list (N * N)) : list (N * N) := firstn k_actors_shown (hist_sort (histo sl)).
+Definition delta_highlights (sl : list (N * N)) : list (N * N) := lastn k_highlights sl.
+
 Definition enc_summ (kv : N * summ) : list N :=
   let v := snd kv in
   fst kv :: su_to_seq v :: enc_opt (su_to_mid v) ++ enc_opt (su_base v)
-  ++ [su_note v; (if su_kind v =? 2 then 1 else 0); nlen (su_slice v)].
+  ++ [su_note v; (if su_kind v =? 2 then 1 else 0); nlen (su_slice v)]
+  ++ enc_pairs (delta_actors (su_slice v)) ++ enc_pairs (delta_highlights (su_slice v)).
 
 Definition enc_cut_resp (K : consts) (ostride olim : option N) (s : st) : list N :=
   let stride := opt_or ostride (k_default_stride K) in
